@@ -208,7 +208,8 @@ theorem sig_meets_spec (f : Fields) (hwf : f.WF) (a : Area) (hpa : parseArea f.t
     (hpad : a.pad = none ∨ a.pad = some []) (hamb : ¬ a.Ambiguous)
     (hvalid : ValidFlags f) (hsyn : Syn f) :
     SigOk f (modelSig f) := by
-  obtain ⟨hlay, hmss, hws, hq⟩ := walked_eq f a hpa hpad
+  obtain ⟨hlay, hmss, hws, _⟩ := walked_eq f a hpa hpad
+  have hq := walked_quirks_unamb f a hpa hpad (fun h => hamb (Or.inr (Or.inl h))) (fun h => hamb (Or.inr (Or.inr h)))
   have hwf' := hwf
   unfold Fields.WF at hwf'
   obtain ⟨httl, hihl, _, _, _, _, _, _, _, _, _, _, _, htf, hwin16, _⟩ := hwf'
@@ -308,42 +309,33 @@ example : optionsMalformed [3, 2, 1, 1] = true ∧ optionsMalformed [2, 4, 5] = 
   decide
 
 /-- **Malformed option areas.** When the grammar rejects the option bytes the signature carries `bad`
-(once, and nowhere else), the header quirks are exactly those whose condition holds, and version,
-ittl, olen, pclass are the headers'; the specification leaves layout, MSS, window scale, window and
-the other option-derived quirks open there. The one thing it still demands of those — no quirk listed
-twice — holds unless the walk itself repeats one (`KF.C03.malformedRepeatsQuirk`). -/
+(once, and nowhere else), the header quirks are exactly those whose condition holds, no quirk is
+listed twice (every push inside the option loop is guarded, fixes/C03-option-quirks-reported-once.patch),
+and version, ittl, olen, pclass are the headers'; the specification leaves layout, MSS, window scale,
+window and the other option-derived quirks open there. No further hypothesis. -/
 theorem sig_meets_spec_malformed (f : Fields) (hwf : f.WF) (hpa : parseArea f.tcp.opts = none)
-    (hrep : ¬ Huginn.KF.C03.malformedRepeatsQuirk f) (hvalid : ValidFlags f) (hsyn : Syn f) :
+    (hvalid : ValidFlags f) (hsyn : Syn f) :
     SigOk f (modelSig f) := by
   obtain ⟨hver, httl, holen, hpc⟩ := header_fields_unconditional f hwf
   have hnrst : ¬ Rst f := by
     unfold ValidFlags Syn FinF Rst at *
     intro hr; exact hvalid.1 ⟨hsyn, Or.inr hr⟩
-  have hwq := (walk_quirks (tcpType f.tcp.flags) f.tcp.opts {}).2
-  have hwnd : (walk (tcpType f.tcp.flags) f.tcp.opts {}).quirks.Nodup := by
-    unfold Huginn.KF.C03.malformedRepeatsQuirk at hrep
-    exact Decidable.of_not_not fun h => hrep ⟨hpa, h⟩
   have hbadopt : Quirk.optBad ∉ optionQuirks := by decide
-  have hq := modelSig_quirks f
+  obtain ⟨ext, hq, hwq, hnd⟩ := modelSig_quirks f
   rw [badQ_malformed f hpa] at hq
   unfold SigOk
   simp only [hpa]
   refine ⟨hver, httl, holen, hpc, ?_, ?_, trivial⟩
-  · -- no duplicates: header quirks, option-derived quirks and `bad` are pairwise disjoint
+  · -- no duplicates: header and option-derived quirks never repeat, `bad` is neither
     rw [hq, List.nodup_append]
-    refine ⟨?_, by simp, ?_⟩
-    · rw [List.nodup_append]
-      refine ⟨hdr_nodup f, hwnd, ?_⟩
-      intro x hx y hy hxy
-      subst hxy
-      exact hdr_not_opt f x (Or.inl (hwq x hy)) hx
-    · intro x hx y hy hxy
-      simp only [List.mem_singleton] at hy
-      subst hy; subst hxy
-      rw [List.mem_append] at hx
-      rcases hx with hx | hx
-      · exact hdr_not_opt f _ (Or.inr rfl) hx
-      · exact hbadopt (hwq _ hx)
+    refine ⟨hnd, by simp, ?_⟩
+    intro x hx y hy hxy
+    simp only [List.mem_singleton] at hy
+    subst hy; subst hxy
+    rw [List.mem_append] at hx
+    rcases hx with hx | hx
+    · exact hdr_not_opt f _ (Or.inr rfl) hx
+    · exact hbadopt (hwq _ hx)
   · -- `bad` is there; the header quirks are exactly those whose condition holds
     intro q _ hno
     have hqo : q ∉ optionQuirks := hno trivial
@@ -351,7 +343,7 @@ theorem sig_meets_spec_malformed (f : Fields) (hwf : f.WF) (hpa : parseArea f.tc
     simp only [List.mem_append, List.mem_singleton]
     by_cases hqb : q = .optBad
     · subst hqb; simp [QuirkCond]
-    · have : q ∉ (walk (tcpType f.tcp.flags) f.tcp.opts {}).quirks := fun h => hqo (hwq q h)
+    · have : q ∉ ext := fun h => hqo (hwq q h)
       simp only [this, hqb, or_false]
       exact hdr_mem f hwf none hnrst q hqo hqb
 
@@ -363,10 +355,10 @@ def FullRenderMeetsSpec : Prop := ∀ f : Fields, f.WF → Specified f → Holds
 /-- **C03, partial.** Outside the known-finding classes the model of
 `process_ipv4_packet` / `process_ipv6_packet` reports exactly what the header fields define:
 rejected flag combinations and non-handshake segments nothing, a SYN the client signature and
-MTU = MSS + 40/60, a SYN+ACK the server signature; a malformed option area gives `bad` (since the
-repair fixes/C03-bad-quirk-for-malformed-options.patch the class "bad never reported" is gone; what
-is excluded instead is only `KF.C03.malformedRepeatsQuirk`: a malformed area in which the walk lists
-an option-derived quirk twice). No bound on any field. -/
+MTU = MSS + 40/60, a SYN+ACK the server signature; a malformed option area gives `bad` and no
+quirk twice (the classes "bad never reported" and "option quirk listed twice in a malformed area" were
+repaired: fixes/C03-bad-quirk-for-malformed-options.patch, fixes/C03-option-quirks-reported-once.patch).
+The three classes still excluded are the ones the repository's golden snapshot pins. No bound on any field. -/
 theorem render_meets_spec_partial (f : Fields) (hwf : f.WF) (hs : Specified f)
     (hk : ¬ Huginn.KF.C03.any f) : Holds f (process f) := by
   have hwf' := hwf
@@ -376,7 +368,7 @@ theorem render_meets_spec_partial (f : Fields) (hwf : f.WF) (hs : Specified f)
   obtain ⟨_, _, hmf⟩ := ipflag_bits f.ip.flags hfl
   unfold Huginn.KF.C03.any at hk
   simp only [not_or] at hk
-  obtain ⟨hk_eol, hk_role, hk_mtu, hk_rep⟩ := hk
+  obtain ⟨hk_eol, hk_role, hk_mtu⟩ := hk
   obtain ⟨hproto, hfrag, hamb⟩ := hs
   have hfrag' : f.ip.v6 = true ∨ (f.ip.fragOff = 0 ∧ ¬ (f.ip.flags &&& IP_MF = IP_MF)) := by
     rcases hfrag with h | ⟨h1, h2⟩
@@ -394,7 +386,7 @@ theorem render_meets_spec_partial (f : Fields) (hwf : f.WF) (hs : Specified f)
     cases hpa0 : parseArea f.tcp.opts with
     | none =>
       -- malformed option area: `bad`; layout, MSS, window and MTU are left open by the specification
-      have hsig := sig_meets_spec_malformed f hwf hpa0 hk_rep hvalid hsyn
+      have hsig := sig_meets_spec_malformed f hwf hpa0 hvalid hsyn
       rw [process_ok f hproto hfrag' hv]
       simp only [hvalid, not_true_eq_false, if_false, hsyn]
       by_cases hack : Ack f
@@ -588,14 +580,22 @@ example : ∀ o ∈ [[2], [77, 0, 1, 1], [77, 1, 1, 1], [77, 5, 1, 1], [2, 4, 5]
     parseArea o = none ∧ (synQuirks (withOpts o 7)).getLast? = some .optBad := by decide +kernel
 example : synQuirks (withOpts [2, 4, 5, 180, 77, 3, 9, 1] 7) = [.df, .nonZeroID] := by decide +kernel
 
-/-- (i) what is left of (g): `03 02` (malformed), then two window-scale options with shift 15 — the walk
-goes on and lists `exws` twice -/
-theorem kf_malformedRepeatsQuirk_witness :
+/-- repaired (fixes/C03-option-quirks-reported-once.patch): the witness of the former class (i),
+`03 02` (malformed) followed by two window-scale options with shift 15 — the walk still goes on past
+the malformed option, but `exws` is listed once and the whole report meets the specification. -/
+theorem fixed_malformedRepeatsQuirk_regression :
     let w := withOpts [3, 2, 3, 3, 15, 3, 3, 15] 7
-    w.WF ∧ Specified w ∧ Huginn.KF.C03.malformedRepeatsQuirk w ∧ ¬ Holds w (process w) ∧
+    w.WF ∧ Specified w ∧ parseArea w.tcp.opts = none ∧ ¬ Huginn.KF.C03.any w ∧ Holds w (process w) ∧
       (∃ r s, process w = .ok r ∧ r.syn = some s ∧
-        s.quirks = [.df, .nonZeroID, .excessiveWindowScaling, .excessiveWindowScaling, .optBad]) := by
-  refine ⟨by decide +kernel, by decide +kernel, by decide +kernel, by decide +kernel, _, _, rfl, rfl, by decide +kernel⟩
+        s.quirks = [.df, .nonZeroID, .excessiveWindowScaling, .optBad]) := by
+  refine ⟨by decide +kernel, by decide +kernel, by decide +kernel, by decide +kernel, by decide +kernel,
+    _, _, rfl, rfl, by decide +kernel⟩
+
+/-- each of the four guarded pushes: a second timestamp option (TSval 0, TSecr ≠ 0 on a SYN), a
+second end-of-options marker with a non-zero byte after it -/
+example : synQuirks (withOpts [3, 2, 8, 10, 0, 0, 0, 0, 0, 0, 0, 5, 8, 10, 0, 0, 0, 0, 0, 0, 0, 6, 1, 1] 11)
+      = [.df, .nonZeroID, .ownTimestampZero, .peerTimestampNonZero, .optBad] ∧
+    synQuirks (withOpts [3, 2, 0, 1, 0, 1] 7) = [.df, .nonZeroID, .trailingNonZero, .optBad] := by decide +kernel
 
 /-- repaired (fixes/C03-window-mtu-no-saturated-divisor.patch): window 65535 with MSS 65495 is raw -/
 theorem fixed_winSaturatedMtu_regression :
